@@ -358,12 +358,13 @@ collect:
 	if after.Persist > base.Persist {
 		obs.Ledger.Bodies = after.Persist - base.Persist
 	}
+	parked := after.Parked - base.Parked
 	if len(left) > 0 {
 		probs = append(probs, problem{fp: "calls:" + sc.transportTag() + ":goroutines_after_close", what: "library goroutines are still there after Close (all calls returned, peer gone)", observed: libKeys(left)})
 	}
 	if obs.Ledger.Bodies > 0 {
 		probs = append(probs, problem{fp: "calls:" + sc.transportTag() + ":connection_not_released", what: "client connections are still checked out after Close: a response body was neither closed nor read to its end",
-			observed: map[string]any{"persistConn_readLoops": obs.Ledger.Bodies, "fds_before": base.FDs, "fds_after": after.FDs}})
+			observed: map[string]any{"persistConn_readLoops": obs.Ledger.Bodies, "parked_waiting_for_body": parked, "fds_before": base.FDs, "fds_after": after.FDs}})
 	} else if after.FDs > base.FDs {
 		probs = append(probs, problem{fp: "calls:" + sc.transportTag() + ":fds_after_close", what: "more open file descriptors after Close than before the client was made", observed: map[string]any{"before": base.FDs, "after": after.FDs}})
 	}
